@@ -89,8 +89,8 @@ PROTO = "rpyc/core/protocol.py::Connection."
 ATTR_FUNCS = [PROTO + n for n in ("_check_attr", "_access_attr", "_handle_getattr", "_handle_setattr", "_handle_delattr",
                                   "_handle_call", "_handle_callattr", "_handle_cmp", "_handle_ctxexit", "_handle_oldslicing")]
 SERVICE_HOOKS = ["rpyc/core/service.py::Service._rpyc_delattr", "rpyc/core/service.py::Service._rpyc_setattr"]
-ALL_CONTRACTS = ["brine", "compat", "externals", "stream", "channel", "protocol_attr", "colls", "protocol_box", "protocol_core", "async_", "protocol_close", "lib", "netref", "protocol_handlers", "scenarios", "vinegar", "classic", "registry"]
-ALL_SPECS = ["brine_spec", "channel_spec", "policy_spec", "refcount_spec", "protocol_spec", "box_spec", "netref_spec", "vinegar_spec", "registry_spec"]
+ALL_CONTRACTS = ["brine", "compat", "externals", "stream", "channel", "protocol_attr", "colls", "protocol_box", "protocol_core", "async_", "protocol_close", "lib", "netref", "protocol_handlers", "scenarios", "vinegar", "classic", "registry", "server"]
+ALL_SPECS = ["brine_spec", "channel_spec", "policy_spec", "refcount_spec", "protocol_spec", "box_spec", "netref_spec", "vinegar_spec", "registry_spec", "server_spec"]
 
 PLANS["C06"] = dict(
     title="Attribute access by the peer follows the connection's policy, and only its own",
@@ -437,7 +437,7 @@ PLANS["C18"] = dict(
     title="The registry reflects exactly the live registrations and cannot be knocked over (table and serving loop)",
     contracts=ALL_CONTRACTS, specs=ALL_SPECS, table="module",
     targets=[REG + n for n in ("_add_service", "_remove_service", "cmd_register", "cmd_unregister", "_work")],
-    lemmas=[], compositions=[], native_focus=[], design_ref="DESIGN.md section 4, C18",
+    lemmas=[], compositions=[], bounded=["registry_query_bounded"], native_focus=[], design_ref="DESIGN.md section 4, C18",
     assumptions=COMMON_ASSUMPTIONS + [
         "abstract view: the set of live registrations (name, address) with the time of their last refresh; the code's nested table "
         "name -> {address: time} is modelled as a dict of dicts over two-dimensional arrays (an inner dict has no state of its own)",
@@ -449,12 +449,40 @@ PLANS["C18"] = dict(
         "Exception ends the loop (fix F3), the table's invariant is kept, and a reply is sent only for a command that returned",
         "ASSUMED interface contract: cmd_query (sorted() over a dict view with a key function is outside the subset): it answers "
         "with an encodable tuple and prunes through _remove_service. So `exactly the servers ... oldest refresh first` and the "
-        "pruning interval are NOT verified",
+        "pruning interval are NOT verified - BOUNDED stand-in only: cmd_query of the real class is run against the statement's answer "
+        "(membership, pruning, oldest first, case-insensitive name, notifications of pruned entries, other names untouched) for every "
+        "table of up to 3 servers in all insertion orders with refresh times {fresh, older, at the limit, stale} (1263 cases)",
         "ASSUMED: _recv / _send of the concrete servers as library models (a datagram or socket.error / socket.timeout; sending "
         "swallows socket errors); the hooks on_service_added / on_service_removed may raise anything; time.time() is a ghost clock",
         "NOT covered: the TCP server's blocking recv on an accepted socket (a silent TCP client stalls the loop: finding F8 of "
         "DESIGN.md 6 needs a model of blocking I/O, out of reach), the registry clients (registrars), case-insensitivity of query "
         "(inside cmd_query)",
         "getattr(self, 'cmd_%s' % x, None) resolves to the class's method of that name; `%` formatting keeps the literal prefix",
+    ],
+)
+
+
+SRV = "rpyc/utils/server.py::"
+PLANS["C17"] = dict(
+    title="Closing a server ends all its clients; departed clients leave nothing behind (partial: tracking and close discipline)",
+    contracts=ALL_CONTRACTS, specs=ALL_SPECS, table="module",
+    targets=[SRV + n for n in ("ThreadPoolServer._drop_connection", "ThreadPoolServer.close", "Server._authenticate_and_serve_client",
+                               "OneShotServer._accept_method")],
+    lemmas=[], compositions=[], native_focus=[], design_ref="DESIGN.md section 4, C17",
+    assumptions=COMMON_ASSUMPTIONS + [
+        "PARTIAL, sequential: VERIFIED - ThreadPoolServer.close closes the base server, wakes and joins its threads and then drops "
+        "EVERY connection it still holds (fd_to_conn is empty afterwards; fix F7); _drop_connection forgets exactly that descriptor "
+        "and closes exactly that connection; Server._authenticate_and_serve_client, on every exit for which an Exception (or "
+        "nothing) is raised - authentication refused, authentication raising, serving raising, normal end - attempts to shut the "
+        "client's socket down and removes exactly that socket from self.clients, serving at most once and only after successful "
+        "authentication; OneShotServer._accept_method serves one client and then closes the server on every exit",
+        "ASSUMED interface contracts: Server.close (sets of socket objects: listener shut down and closed, every tracked client "
+        "socket shut down and closed, the set emptied, idempotent), Server._serve_client (builds and serves the connection; its "
+        "teardown is C11)",
+        "threads, queues, poll objects, sockets and the authenticator are dynamic objects: each method call is a pair of ghost "
+        "events with any outcome; Thread.join / Queue.put are not given blocking semantics",
+        "NOT covered (threads / OS, out of reach): that a shutdown makes the client observe end-of-stream promptly, descriptor "
+        "accounting (contextlib.closing(sock) in the per-client finally is a no-op: the descriptor is released by the connection's "
+        "teardown or by garbage collection), the forking server, accept loops under concurrent close, ThreadedServer's thread spawn",
     ],
 )
